@@ -16,11 +16,17 @@ H.append({"name":"H_diff","tiers":Q,"scale":"b2","preemptions":-1,"novalidate":T
   "param_sets":[{"n0":4,"n1":3,"slicing":s,"policy":0,"race":1} for s in (0,1)]})
 H.append({"name":"H_bsdiff","tiers":Q,"scale":"b2","preemptions":-1,"novalidate":True,"bounds":"race query over the bsdiff scanner's worker / dispatcher / collector goroutines and the suffix-sort goroutines, partitions 1..3",
   "param_sets":[{"n0":6,"n1":n,"parts":p,"policy":0,"race":1} for n in (9,13) for p in (1,2,3)]})
+H.append({"name":"H_bsdiff","tiers":Q,"scale":"b2","preemptions":-1,"bounds":"number of CPUs as an environment input: first run sees 8 CPUs (runtime.GOMAXPROCS(0)/NumCPU), second run 1, 2 or 3; partitions 2..4, old 6..8, new 9..13; canonical schedule",
+  "param_sets":[{"n0":a,"n1":n,"parts":p,"policy":0,"procs1":8,"procs2":c} for a in (6,8) for n in (9,13) for p in (2,3,4) for c in (1,2,3)]})
+H.append({"name":"H_rediff","tiers":Q,"scale":"b2","preemptions":-1,"bounds":"optimizer with 3 partitions, 8 CPUs vs 1 or 2 CPUs, canonical map order and every map order",
+  "param_sets":[{"shape":s,"parts":3,"procs1":8,"procs2":c} for s in (0,1) for c in (1,2)]})
+H.append({"name":"H_diff","tiers":Q,"scale":"b2","preemptions":-1,"bounds":"WritePatch with 8 CPUs vs 1 CPU, canonical schedule",
+  "param_sets":[{"n0":4,"n1":3,"slicing":0,"policy":0,"procs1":8,"procs2":1}]})
 H.append({"name":"H_diff","tiers":T,"scale":"b2","preemptions":2,"bounds":"<=2 preemptions, sizes (4,3),(5,2); with and without short reads","max_seconds":1700,
   "param_sets":[{"n0":a,"n1":b,"slicing":s,"policy":p} for (a,b) in ((4,3),(5,2)) for s in (0,1) for p in (0,1)]})
 H.append({"name":"H_bsdiff","tiers":T,"scale":"b2","preemptions":2,"bounds":"old 2..8, new 5..17, partitions 1..4, <=2 preemptions","max_seconds":1700,
   "param_sets":[{"n0":a,"n1":n,"parts":p,"policy":q} for a in (2,5,8) for n in (5,9,17) for p in (1,2,4) for q in (0,1)]})
 json.dump({"property":"C15","package":"c15","scale":scale,"harnesses":H,
  "stubs":["os -> memfs, md5/protobuf models","cooperative scheduler: switches only at visible operations (sound for data-race-free code); delay/preemption-bounded with several default policies","map iteration order explored exhaustively (rediff)"],
- "outside":["GOMAXPROCS as such (subsumed by interleaving semantics for DRF code)","schedules beyond the bound","races that need a different channel pairing than the observed one; races inside modelled packages"]},open("config.json","w"),indent=1)
+ "outside":["GOMAXPROCS as a scheduling parameter (subsumed by interleaving semantics for DRF code; as a value read by the code it is an explicit input, procs1/procs2)","schedules beyond the bound","races that need a different channel pairing than the observed one; races inside modelled packages"]},open("config.json","w"),indent=1)
 for h in H: print(h["name"],h["tiers"],h.get("scale"),len(h.get("param_sets",[1])))
